@@ -470,7 +470,7 @@ theorem locateHunk_none_of_foreign (file : List Line) (h : Hunk) (iw : Bool) (of
   | some loc =>
     obtain ⟨p, f, _, _, _, hadm, _⟩ := C02.locate_sound file h iw offset maxFuzz ml loc hl hc
     rw [admissibleB_iff] at hadm
-    obtain ⟨_, hf, _, hfit, hall⟩ := hadm
+    obtain ⟨_, hf, _, hfit, _, hall⟩ := hadm
     rw [oldLineCount_eq] at hmid
     have h1 := fuzzPair_fst h.lines f
     have h2 := fuzzPair_snd h.lines f
